@@ -281,7 +281,7 @@ def ole_bytes(entries):
         start, size = (streams[i][0], max(len(data), 4096)) if typ == 2 else ((EOC, 0))
         dirbytes += (nm.ljust(64, b"\0") + struct.pack("<HBB", len(nm), typ, 1) + struct.pack("<III", NOSTREAM, sib.get(i, NOSTREAM), kids[0] if kids else NOSTREAM)
                      + b"\0" * 16 + struct.pack("<I", 0) + b"\0" * 16 + struct.pack("<II", start, size) + b"\0" * 4)
-    dirbytes += (b"\0" * 64 + struct.pack("<HBB", 0, 0, 0) + struct.pack("<III", NOSTREAM, NOSTREAM, NOSTREAM) + b"\0" * 44) * (n_dir * 4 - len(flat))
+    dirbytes += (b"\0" * 64 + struct.pack("<HBB", 0, 0, 0) + struct.pack("<III", NOSTREAM, NOSTREAM, NOSTREAM) + b"\0" * 48) * (n_dir * 4 - len(flat))
     header = (b"\xd0\xcf\x11\xe0\xa1\xb1\x1a\xe1" + b"\0" * 16 + struct.pack("<HHHHH", 0x3E, 3, 0xFFFE, 9, 6) + b"\0" * 6
               + struct.pack("<IIIIIIIII", 0, 1, 1, 0, 4096, EOC, 0, EOC, 0) + struct.pack("<I", 0) + struct.pack("<I", FREE) * 108)
     body = struct.pack("<128I", *fat) + dirbytes + b"".join(streams[i][2] for i in sorted(streams))
@@ -300,6 +300,10 @@ def ole_marker_variants():
             for spelled in (mk, mk.upper(), mk.lower()):
                 out.append((f"stream {spelled!r} (.{ext})", ext, ole_bytes(filler + [(spelled, b"x" * 40)]), "encrypted"))
             out.append((f"storage {mk!r} (.{ext})", ext, ole_bytes(filler + [(mk, [("Version", b"v" * 8)])]), "encrypted"))
+            if ext == "ppt":     # a binary presentation with its usual streams around the marker (CurrentUserAtom with the plain header token)
+                cu = struct.pack("<HHII", 0, 0x0FF6, 0x20, 0x14) + struct.pack("<I", 0xE391C05F) + b"\0" * 16
+                usual = [("Current User", cu), ("PowerPoint Document", b"\0" * 64), ("\x05SummaryInformation", b"\0" * 48)]
+                out.append((f"stream {mk!r} next to Current User / PowerPoint Document (.ppt)", ext, ole_bytes(usual + [(mk, b"x" * 40)]), "encrypted"))
     for stream, spelled in (("Workbook", "Workbook"), ("Workbook", "WORKBOOK"), ("Book", "Book"), ("Book", "book")):
         for enc in (False, True):
             recs = [(0x0809, b"\0" * 16)] + ([(0x0086, b""), (0x002F, b"\0" * 6)] if enc else [(0x0042, b"\xe4\x04")]) + [(0x000A, b"")]
@@ -727,6 +731,29 @@ for m in importers:
                     break
         except Exception as e:
             stale.append(m + '.CryptAES (' + type(e).__name__ + ')')
+# CBC / ECB drivers of the built-in AES on messages of many lengths, incl. several 64 KiB boundaries: round trip, and the CBC
+# definition itself (P_i = D(C_i) xor C_{i-1}, C_0 = IV) against the ECB driver
+def _xor(a, b):
+    return bytes(x ^ y for x, y in zip(a, b))
+for klen in (16, 32):
+    key, iv = bytes(range(klen)), bytes(range(100, 116))
+    for n_ in (16, 32, 4096, 65536 - 16, 65536, 65536 + 16, 65536 + 48, 2 * 65536 + 32):
+        msg = bytes((i_ * 7 + n_) % 251 for i_ in range(n_))
+        try:
+            ct = A.aes_cbc_encrypt(key, iv, msg)
+            back = A.aes_cbc_decrypt(key, iv, ct)
+            ref = b''.join(_xor(A.aes_ecb_decrypt(key, ct[o:o + 16]), (iv if o == 0 else ct[o - 16:o])) for o in range(0, len(ct), 16))
+            if back != msg or ref != msg:
+                bad = next((o for o in range(0, n_, 16) if back[o:o + 16] != msg[o:o + 16]), None)
+                stale.append('aes_cbc_decrypt(aes_cbc_encrypt(m)) != m for a %d-byte key and len(m) = %d (first wrong block at byte %s; CBC definition over the ECB driver gives m: %s)'
+                             % (klen, n_, bad, ref == msg))
+                break
+            if A.aes_ecb_decrypt(key, A.aes_ecb_encrypt(key, msg[:4096])) != msg[:4096]:
+                stale.append('aes_ecb_decrypt(aes_ecb_encrypt(m)) != m for a %d-byte key' % klen)
+                break
+        except Exception as e:
+            stale.append('AES driver raised %s for len(m) = %d' % (type(e).__name__, n_))
+            break
 print(json.dumps({'provider': pypdf._crypt_providers.crypt_provider[0], 'returned': ret, 'importers': importers, 'stale': stale, 'stub': stub}))
 """
 
@@ -755,7 +782,7 @@ def aes_patch_check():
         r = embedded_pdfs(only=("AES-256",)) or embedded_pdfs(only=("AES-128",))
         rec = fail("patch_pypdf_fallback_aes", {"process": "fresh", "provider": pb["provider"]},
                    "returns True, every pypdf module that bound the AES names resolves them to the built-in AES, and "
-                   "CryptAES.decrypt(CryptAES.encrypt(m)) == m for every length of m in 0..49",
+                   "CryptAES.decrypt(CryptAES.encrypt(m)) == m for every length of m in 0..49, CBC/ECB round trips up to 128 KiB",
                    f"returned {pb['returned']}; not as expected after the patch: {pb['stale'][:4]}")
         if r is not None:
             rec["inputs"].update(r["inputs"])
@@ -873,7 +900,13 @@ def validate_views():
             return False, "no protected PDF fixture"
         r = PdfReader(io.BytesIO(open(p[0], "rb").read()))
         res = r.decrypt("")
-        return bool(r.is_encrypted) and res == 0 and int(res) == 0, f"decrypt('') = {res!r} on the protected fixture"
+        try:    # ... and a constructor that is handed a password it cannot open the file with raises instead (policy P6)
+            PdfReader(io.BytesIO(open(p[0], "rb").read()), password="")
+            ctor = "returned"
+        except Exception as e:  # noqa
+            ctor = type(e).__name__
+        return bool(r.is_encrypted) and res == 0 and int(res) == 0 and ctor == "WrongPasswordError", \
+            f"decrypt('') = {res!r} on the protected fixture; PdfReader(f, password='') -> {ctor}"
     fact("pypdf-is_encrypted-and-decrypt-result-0-for-a-rejected-password", v_pdf)
     return out
 
